@@ -105,7 +105,7 @@ __CPROVER_assigns()
 __CPROVER_ensures(__CPROVER_return_value == g_str_len)
 ;
 
-/* ---- scalar traits (bool, int8_t, int32_t: varint32 of the value converted to uint32_t; int64_t: varint64): for EVERY value of the
+/* ---- scalar traits (bool, int8_t, int16_t, int32_t, uint8_t, uint16_t, uint32_t: varint32 of the value converted to uint32_t; int64_t, uint64_t: varint64): for EVERY value of the
  * type the predicted size is the number of bytes serialize writes, serialize writes exactly the converted value, and deserialize of
  * what serialize wrote gives the value back (the conversion round trip T -> unsigned -> T is the identity, incl. negative values,
  * which are written as 32-bit two's complement: 5 bytes, babylon's own encoding) */
@@ -132,4 +132,9 @@ SCALAR_CONTRACTS(I32Traits, int32_t, unsigned int)
 SCALAR_CONTRACTS(I8Traits, int8_t, unsigned int)
 SCALAR_CONTRACTS(BTraits, _Bool, unsigned int)
 SCALAR_CONTRACTS(I64Traits, int64_t, unsigned long)
+SCALAR_CONTRACTS(I16Traits, int16_t, unsigned int)
+SCALAR_CONTRACTS(U8Traits, uint8_t, unsigned int)
+SCALAR_CONTRACTS(U16Traits, uint16_t, unsigned int)
+SCALAR_CONTRACTS(U32Traits, uint32_t, unsigned int)
+SCALAR_CONTRACTS(U64Traits, uint64_t, unsigned long)
 #endif
